@@ -177,12 +177,22 @@ def main():
                 if arr.shape != (gp.shape[0], nf, nPe):
                     res.disagree("Get_%s_pg shape" % t, dict(elem=name, shape=list(arr.shape)))
                     continue
-                for p in range(min(gp.shape[0], 2 if args.tier == "quick" else gp.shape[0])):
+                for p in range(gp.shape[0]):
                     x = [Fraction(float(c)) for c in gp[p, :dim]]
                     for i in range(nPe):
                         for a in range(nf):
-                            lines.append(f"E {name} {t} {i} {a} " + " ".join(frac_str(c) for c in x))
-                            expect.append((name, "Get_%s_pg[%s]" % (t, mt), i, a, x, Fraction(float(arr[p, a, i]))))
+                            # the evaluated array must hold the value of the k-th table (which (B) ties to
+                            # the k-th derivative of _N) at the Gauss point, in the (nPg, dim, nPe) layout
+                            want = call(T[t][i, 0 if t == "N" else a], x)
+                            got = Fraction(float(arr[p, a, i]))
+                            res.case((name, "glue", t, str(mt), p, i, a), nontrivial=(want != 0))
+                            if abs(want - got) > Fraction(1, 10**9) * (1 + abs(want)):
+                                res.fail(f"elem={name} glue=Get_{t}_pg",
+                                         f"{name}.Get_{t}_pg({mt})[{p},{a},{i}] = {float(got)} but _{t}()[{i}][{a}] at that Gauss point = {float(want)}",
+                                         dict(elem=name, getter=f"Get_{t}_pg", matrixType=str(mt), gauss_point=p, i=i, a=a, got=float(got), want=float(want)))
+                            if p < (2 if args.tier == "quick" else gp.shape[0]):
+                                lines.append(f"E {name} {t} {i} {a} " + " ".join(frac_str(c) for c in x))
+                                expect.append((name, "Get_%s_pg[%s]" % (t, mt), i, a, x, got))
 
     for cname in beams:
         g = make_beam(cname)
@@ -233,11 +243,19 @@ def main():
             if arr.shape != (gp.shape[0], 1, 2 * nPe):
                 res.disagree("Get_Hermitian_%s_pg shape" % t, dict(elem=cname, shape=list(arr.shape)))
                 continue
-            for p in range(min(gp.shape[0], 2 if args.tier == "quick" else gp.shape[0])):
+            for p in range(gp.shape[0]):
                 x = [Fraction(float(gp[p, 0]))]
                 for i in range(2 * nPe):
-                    lines.append(f"H {cname} {t} {i} " + frac_str(x[0]))
-                    expect.append((cname, "Get_Hermitian_%s_pg" % t, i, 0, x, Fraction(float(arr[p, 0, i]))))
+                    want = call(T[t][i, 0], x)
+                    got = Fraction(float(arr[p, 0, i]))
+                    res.case((cname, "glue", t, p, i), nontrivial=(want != 0))
+                    if abs(want - got) > Fraction(1, 10**9) * (1 + abs(want)):
+                        res.fail(f"hermite={cname} glue=Get_Hermitian_{t}_pg",
+                                 f"{cname}.Get_Hermitian_{t}_pg()[{p},0,{i}] = {float(got)} but _Hermitian_{t}()[{i}] there = {float(want)}",
+                                 dict(elem=cname, getter=f"Get_Hermitian_{t}_pg", gauss_point=p, i=i, got=float(got), want=float(want)))
+                    if p < (2 if args.tier == "quick" else gp.shape[0]):
+                        lines.append(f"H {cname} {t} {i} " + frac_str(x[0]))
+                        expect.append((cname, "Get_Hermitian_%s_pg" % t, i, 0, x, got))
 
     answers = driver.ask(lines)
     if answers is None:
